@@ -17,6 +17,11 @@ class SymbolicSX:
         return R.wrap(R.Not(x))
 
     @staticmethod
+    def Iff(a, b):
+        a, b = R.B(a), R.B(b)
+        return R.wrap(R.Or(R.And(a, b), R.And(R.Not(a), R.Not(b))))
+
+    @staticmethod
     def fresh(n=1):
         return R.ST.fresh(n)
 
@@ -123,6 +128,10 @@ class ConcreteSX:
     @staticmethod
     def Not(x):
         return not x
+
+    @staticmethod
+    def Iff(a, b):
+        return bool(a) == bool(b)
 
     @staticmethod
     def ch_in(ch, ranges):
